@@ -448,12 +448,13 @@ def run_assembly(which, timeout_ms=10000):
 def feed(report, tier):
     from engine.verdict import Ob
     to = 10000 if tier == 'quick' else 60000
-    for which in ('vslc', 'islc', 'eslc', 'maps', 'assemble-G',
+    for which in ('vslc', 'islc', 'eslc', 'maps', 'mmap-pwl', 'assemble-G',
                   'assemble-A'):
         try:
             obs = run_assembly(which, to) if which.startswith('assemble') \
-                else (run_maps() if which == 'maps' else
-                      run_partition(which, to))
+                else (run_maps() if which == 'maps' else (
+                    run_mmap_pwl(to) if which == 'mmap-pwl' else
+                    run_partition(which, to)))
         except KeyError as e:
             report.error('function under contract no longer exists: %s' % e)
             return
@@ -910,4 +911,304 @@ def run_maps():
                 'multiplier maps index constraints[0] and constraints[1])',
                 'line': 0, 'model': None, 'detail': str(cons[:2]),
                 'by': ['syntactic']})
+    return obs
+
+
+# ------------------------------------------- mmap of piecewise-linear rows
+# for i in pwl_ineqs:
+#     mmap[i] = _function()
+#     for c in pwl_ineqs[i]:  mmap[i] = mmap[i] + constraints[0].multiplier[islc[c]]
+#     if len(i) == 1 != len(mmap[i]):  mmap[i] = sum(mmap[i])
+#
+# Contract (docstring of constraint._aslinearineq: "the multiplier of self is
+# sum_k ineqs[k].multiplier" if the lengths agree, "sum(sum_k
+# ineqs[k].multiplier)" otherwise): for every piecewise-linear inequality i
+# with linear pieces c_0 .. c_{N-1} (N of any size) whose multipliers are the
+# vectors M_k = (multiplier of G*x <= h)[islc[c_k]] of length len(c_k),
+#     mmap[i] = sum_k M_k              (a length-1 M_k broadcast)
+# and, if len(i) = 1 while that sum has more than one component, the sum of
+# its components.  Ghost prefix sums PS(0, .) = 0, PS(k+1, r) = PS(k, r') +
+# M_k(r'') (r', r'' = r or 0 by broadcasting), PL(0) = 1, PL(k+1) =
+# max(PL(k), len(c_k)); the inner loop is handled by the invariant rule
+# (mmap[i] = PS(k) at the head of an arbitrary iteration, PS(k+1) after the
+# body), the outer loop for an arbitrary key.
+MPS = z3.Function('PS', z3.IntSort(), z3.IntSort(), z3.RealSort())
+MPL = z3.Function('PL', z3.IntSort(), z3.IntSort())
+MLEN = z3.Function('len_of_piece', z3.IntSort(), z3.IntSort())
+MVAL = z3.Function('multiplier_of_piece', z3.IntSort(), z3.IntSort(),
+                   z3.RealSort())
+MTOT = z3.Function('sum_of_components', z3.IntSort(), z3.RealSort())
+
+
+def _bc(f, ln, r):
+    return f(z3.If(ln == 1, Z(0), r))
+
+
+class MVec(Obj):
+    """a vector-valued function at the evaluation point: length, entries"""
+    _tags = [0]
+
+    def __init__(self, name, ln, val, tag=None):
+        Obj.__init__(self, name)
+        self.ln, self.val = ln, val
+        if tag is None:
+            MVec._tags[0] += 1
+            tag = Z(1000 + MVec._tags[0])
+        self.tag = tag
+
+    def abs_binop(self, ex, st, op, b, n):
+        if isinstance(op, (ast.Add, ast.Sub)) and isinstance(b, MVec):
+            sg = 1 if isinstance(op, ast.Add) else -1
+            l1, l2, f1, f2 = self.ln, b.ln, self.val, b.val
+            ok = z3.Or(l1 == l2, l1 == 1, l2 == 1)
+            d = ex.decide(st, ok)
+            if d is None:
+                raise core.NeedFork(ok)
+            if not d:
+                raise core.PyRaise('ValueError', 'incompatible lengths')
+            ln = z3.If(l1 == 1, l2, l1)
+            return MVec('sum', ln, lambda r: _bc(f1, l1, r) +
+                        sg * _bc(f2, l2, r))
+        raise Unsupported('operation on a multiplier vector')
+
+
+class MMap(Obj):
+    """mmap: the value stored under the key of this iteration lives in the
+    state (it is reassigned in a loop)"""
+    def abs_setitem(self, ex, st, idx, v, s):
+        if idx is not st.ghost.get('pwl_key'):
+            raise Unsupported('mmap is assigned under another key')
+        st.ghost['mmap_val'] = v
+        st.ghost['mmap_stores'] = st.ghost.get('mmap_stores', 0) + 1
+
+    def abs_getitem(self, ex, st, idx, n):
+        if idx is not st.ghost.get('pwl_key') or \
+                st.ghost.get('mmap_val') is None:
+            raise Unsupported('mmap is read under another key')
+        return st.ghost['mmap_val']
+
+
+class Pieces(Obj):
+    """pwl_ineqs[i]: the linear pieces c_0 .. c_{N-1}"""
+    def __init__(self, name, N, sink):
+        Obj.__init__(self, name)
+        self.N, self.sink = N, sink
+
+    def abs_loop(self, ex, st, s, fid):
+        N = self.N
+        r = z3.Int('r')
+        cur = st.ghost.get('mmap_val')
+        ok0 = isinstance(cur, MVec)
+        n0 = list(st.pc) + [r >= 0, r < 1, MPL(0) == 1, MPS(0, Z(0)) == 0]
+        self.sink.append(('init', n0, z3.And(cur.ln == MPL(0), cur.val(r) ==
+                                            MPS(0, r)) if ok0 else
+                          z3.BoolVal(False),
+                          'before the pieces are added mmap[i] is the zero '
+                          'function (length 1)', s.lineno))
+        k = z3.Int(ex.fresh('k'))
+        ax = [k >= 0, k < N, MLEN(k) >= 1, MPL(k) >= 1, MPL(0) == 1,
+              MPL(k + 1) == z3.If(MPL(k) == 1, MLEN(k), MPL(k)),
+              z3.Or(MPL(k) == 1, MLEN(k) == 1, MPL(k) == MLEN(k)),
+              z3.ForAll([r], MPS(k + 1, r) == _bc(lambda q: MPS(k, q),
+                                                  MPL(k), r) +
+                        _bc(lambda q: MVAL(k, q), MLEN(k), r))]
+        b = st.copy()
+        b.pc.extend(ax)
+        b.ghost['mmap_val'] = MVec('partial sum', MPL(k),
+                                   lambda q: MPS(k, q))
+        b.ghost['mmap_stores'] = 0
+        piece = Sized('piece k', MLEN(k))
+        piece.index = k
+        ex.assign(b, fid, s.target, piece, s)
+        nfall = 0
+        for o in ex.exec_block(s.body, b, fid):
+            if o.kind not in ('fall', 'continue'):
+                self.sink.append(('exit', list(o.st.pc), z3.BoolVal(False),
+                                  'the loop over the pieces has no early '
+                                  'exit (%s)' % o.kind, s.lineno))
+                continue
+            nfall += 1
+            v = o.st.ghost.get('mmap_val')
+            okv = isinstance(v, MVec)
+            self.sink.append((
+                'accumulate', list(o.st.pc) + [r >= 0, r < MPL(k + 1)],
+                z3.And(v.ln == MPL(k + 1), v.val(r) == MPS(k + 1, r))
+                if okv else z3.BoolVal(False),
+                'each pass adds the multiplier of piece k to mmap[i] '
+                '(componentwise, a length-1 operand broadcast) and does '
+                'nothing else to it', s.lineno))
+        self.sink.append(('covered', [], z3.BoolVal(nfall >= 1),
+                          'the body of the loop over the pieces falls '
+                          'through', s.lineno))
+        e = st.copy()
+        # the sum of the components of a vector with one component is that
+        # component
+        e.pc.extend([N >= 1, MPL(N) >= 1,
+                     z3.Implies(MPL(N) == 1, MTOT(Z(1)) == MPS(N, Z(0)))])
+        e.ghost['mmap_val'] = MVec('sum of the pieces', MPL(N),
+                                   lambda q: MPS(N, q), tag=Z(1))
+        return [core.Outcome('fall', e)]
+
+
+class PwlDict(Obj):
+    def __init__(self, name, sink):
+        Obj.__init__(self, name)
+        self.sink = sink
+        self.N = z3.Int('number of pieces')
+
+    def abs_getitem(self, ex, st, idx, n):
+        if idx is not st.ghost.get('pwl_key'):
+            raise Unsupported('pwl_ineqs read under another key')
+        return Pieces('pwl_ineqs[i]', self.N, self.sink)
+
+    def abs_loop(self, ex, st, s, fid):
+        Li = z3.Int('len(i)')
+        b = st.copy()
+        b.pc.append(Li >= 1)
+        key = Sized('pwl inequality i', Li)
+        b.ghost['pwl_key'] = key
+        b.ghost['mmap_val'] = None
+        ex.assign(b, fid, s.target, key, s)
+        r = z3.Int('r')
+        N = self.N
+        nfall = 0
+        for o in ex.exec_block(s.body, b, fid):
+            if o.kind not in ('fall', 'continue'):
+                self.sink.append(('exit', list(o.st.pc), z3.BoolVal(False),
+                                  'the loop over the piecewise-linear '
+                                  'inequalities has no early exit (%s)' %
+                                  o.kind, s.lineno))
+                continue
+            nfall += 1
+            v = o.st.ghost.get('mmap_val')
+            okv = isinstance(v, MVec)
+            red = z3.And(Li == 1, MPL(N) != 1)
+            g = z3.If(red,
+                      z3.And(v.ln == 1, v.val(Z(0)) == MTOT(Z(1))),
+                      z3.And(v.ln == MPL(N), v.val(r) == MPS(N, r))) \
+                if okv else z3.BoolVal(False)
+            self.sink.append((
+                'value', list(o.st.pc) + [r >= 0, r < MPL(N)], g,
+                'mmap[i] is the sum of the multipliers of the pieces of i; '
+                'if i has length 1 and the sum more than one component, the '
+                'sum of its components', s.lineno))
+        self.sink.append(('covered', [], z3.BoolVal(nfall >= 2),
+                          'both ways through the loop body (with and '
+                          'without the final sum) were examined (%d)' %
+                          nfall, s.lineno))
+        return [core.Outcome('fall', st.copy())]
+
+
+def run_mmap_pwl(timeout_ms=10000):
+    tree, src = driver.load_module('modeling.py')
+    sink, obs = [], []
+
+    def add(oid, status, text, line=0, detail=None, model=None):
+        obs.append({'id': 'modeling.py:op._inmatrixform:partition:mmap-pwl:'
+                    + oid, 'kind': 'partition', 'status': status,
+                    'text': text, 'line': line, 'model': model,
+                    'detail': detail,
+                    'by': ['z3'] if status == 'proved' else []})
+    fn = None
+    for c_ in tree.body:
+        if isinstance(c_, ast.ClassDef) and c_.name == 'op':
+            for m_ in c_.body:
+                if isinstance(m_, ast.FunctionDef) and \
+                        m_.name == '_inmatrixform':
+                    fn = m_
+    if fn is None:
+        raise KeyError('op._inmatrixform')
+    loops = [s for s in fn.body if isinstance(s, ast.For) and
+             ast.unparse(s.iter) == 'pwl_ineqs' and any(
+                 isinstance(x, ast.Assign) and ast.unparse(
+                     x.targets[0]).startswith('mmap[') for x in ast.walk(s))]
+    if len(loops) != 1:
+        add('anchor', 'undecided', 'the loop that fills mmap for the '
+            'piecewise-linear inequalities was found once (%d)' % len(loops))
+        return obs
+    loop = loops[0]
+    ex = core.Executor(tree, 'cvxopt.modeling', L, {
+        'body_slice': lambda f: [loop], 'unroll': 8})
+
+    def m_sum(ex_, st, args, kwargs, n):
+        v = args[0] if len(args) == 1 else None
+        if isinstance(v, MVec):
+            tg = v.tag
+            return MVec('sum of components', Z(1), lambda q: MTOT(tg))
+        raise Unsupported('sum(%r)' % (v,))
+
+    def new_function(ex_, st, args, kwargs, n):
+        return MVec('zero function', Z(1), lambda q: z3.RealVal(0))
+
+    def len_(ex_, st, args, kwargs, n):
+        v = args[0]
+        if isinstance(v, MVec):
+            return I(v.ln)
+        return b_len(ex_, st, args, kwargs, n)
+
+    saved = {k_: L.ext.get(k_) for k_ in (
+        'cvxopt.modeling.sum', 'cvxopt.modeling._function', 'builtins.len')}
+
+    def install_shared():
+        for k_, v_ in saved.items():
+            if v_ is None:
+                L.ext.pop(k_, None)
+            else:
+                L.ext[k_] = v_
+
+    def setup(ex_, st, fid, f_):
+        L.ext['cvxopt.modeling.sum'] = m_sum
+        L.ext['cvxopt.modeling._function'] = new_function
+        L.ext['builtins.len'] = len_
+        L.pure.update(['cvxopt.modeling.sum', 'cvxopt.modeling._function'])
+        fr = st.frames[fid]
+        fr['pwl_ineqs'] = PwlDict('pwl_ineqs', sink)
+        fr['mmap'] = MMap('mmap')
+
+        class Mult(Obj):
+            def abs_getitem(self_, e_, s_, idx, n_):
+                p = getattr(idx, 'piece', None)
+                if p is None:
+                    raise Unsupported('multiplier indexed by something that '
+                                      'is not islc[c]')
+                k = p.index
+                return MVec('multiplier of piece', MLEN(k),
+                            lambda q: MVAL(k, q))
+
+        class Islc(Obj):
+            def abs_getitem(self_, e_, s_, idx, n_):
+                if not isinstance(idx, Sized) or not hasattr(idx, 'index'):
+                    raise Unsupported('islc indexed by something that is '
+                                      'not a piece')
+                o_ = Obj('islc[c]')
+                o_.piece = idx
+                return o_
+        con0 = Obj('constraints[0]')
+        con0.attr_multiplier = lambda e_, s_: Mult('multiplier')
+
+        class Cons(Obj):
+            def abs_getitem(self_, e_, s_, idx, n_):
+                if core.const_of(idx) != (True, 0):
+                    raise Unsupported('constraints[%r]' % (idx,))
+                return con0
+        fr['constraints'] = Cons('constraints')
+        fr['islc'] = Islc('islc')
+        st.ghost['frame_check'] = False
+    ex.find_function('op._inmatrixform')
+    try:
+        ex.run_function('op._inmatrixform', setup)
+    except Unsupported as e:
+        add('supported', 'undecided', 'the loop that fills mmap for the '
+            'piecewise-linear inequalities is inside the supported subset',
+            detail=str(e))
+        return obs
+    finally:
+        install_shared()
+    for kind, pc, goal, text, line in sink:
+        r = ex.check(pc, [z3.Not(goal)], timeout=timeout_ms)
+        st_ = 'proved' if r == z3.unsat else ('refuted' if r == z3.sat
+                                              else 'undecided')
+        if kind == 'covered' and st_ != 'proved':
+            st_ = 'undecided'
+        add(kind, st_, text, line)
     return obs
